@@ -87,6 +87,11 @@ func isQuiet() bool { return S == nil || S.cur == nil || S.cur.quiet > 0 || S.ab
 // SchedLast is the schedule entry "switch to the highest-numbered runnable task".
 const SchedLast = ^uint32(0)
 
+// SchedNext is the preemption entry "hand over to the runnable task with the
+// next higher number (wrapping around)": with one early preemption per task,
+// every task ends up parked inside its first call before any of them resumes.
+const SchedNext = ^uint32(0) - 1
+
 // Config is the schedule / fault part of a plan.
 type Config struct {
 	Sched     []uint32
@@ -775,6 +780,17 @@ func (s *Sim) preempt(t *Task, id int) {
 	s.sig(t.ID, 'p', id)
 	t.sinceSP = 0
 	s.ev("pre", t.ID, id)
+	if c == SchedNext {
+		next := others[0]
+		for _, o := range others {
+			if o.ID > t.ID {
+				next = o
+				break
+			}
+		}
+		s.switchTo(t, next)
+		return
+	}
 	s.switchTo(t, others[int(c)%len(others)])
 }
 
